@@ -617,6 +617,9 @@ def build_scenario(kind, v):
             return scenario(pre, vals, adds=adds, split_after=sa, add_signs=add_signs, check_capacity=True)
         if kind == "delete":
             return scenario(pre, vals, dels=vals.get("set:to_delete", []), split_after=sa, check_capacity=True)
+        if kind == "history":
+            import e2_build
+            return e2_build.history_scenario(v)
         if kind == "upgrade":
             pend = vals.get("pending_updates", [])
             return ("upgrade pending=" + (",".join(map(str, pend)) or "-") + "\nupgrade pending=3\nupgrade06\n")
